@@ -129,14 +129,14 @@ func validDocs(u *universe, t *target, c *vf.Ctx, n int) []any {
 
 var handDocs = map[string][]string{
 	// fully populated: every byte-slice / byte-array / pointer-to-array / numeric-string / big-int position exists
-	"ByteArrs": {`{"a":["0x0a11181f","0x99007f80"],"h":{"data":"0x7f0174e60100","type":3},"i":{"data":"0x018039807fe67fff","type":9},"l":["0x0001ff01"],"lI":[{"data":"0x7f5500017f7f8000","type":9}],"lP":["0x7f7f0180"],"m":{"ezg":"0x7f9a80ff"},"mA":{"fjz":"0x805c"},"mI":{"gv":{"data":"0x7f808080ffff7f7f","type":9}},"p":"0x57808000","q":"0x000101","s":{"data":"0x017f0101ff00","type":3},"sL":[{"data":"0x7f7f0012716c","type":3}],"v":"0x0180ff00","w":"0x80797ff220"}`},
+	"ByteArrs":   {`{"a":["0x0a11181f","0x99007f80"],"h":{"data":"0x7f0174e60100","type":3},"i":{"data":"0x018039807fe67fff","type":9},"l":["0x0001ff01"],"lI":[{"data":"0x7f5500017f7f8000","type":9}],"lP":["0x7f7f0180"],"m":{"ezg":"0x7f9a80ff"},"mA":{"fjz":"0x805c"},"mI":{"gv":{"data":"0x7f808080ffff7f7f","type":9}},"p":"0x57808000","q":"0x000101","s":{"data":"0x017f0101ff00","type":3},"sL":[{"data":"0x7f7f0012716c","type":3}],"v":"0x0180ff00","w":"0x80797ff220"}`},
 	"ByteFields": {`{"a":"0x01","b":"0x0203","c":"0x04","d":"0x01020304","e":"0x0000000000000000000000000000000000000000000000000000000000000001","f":"0x05","g":{"data":"0x0102030405060708","type":9}}`},
 	"PtrArr":     {`{"a":"0x01020304","i":{"data":"0x0102030405060708","type":9},"u":[1,2,3]}`},
 	"Prims":      {`{"b":true,"i8":1,"i16":2,"i32":3,"i64":"4","u8":5,"u16":6,"u32":7,"u64":"8","f32":"1.5","f64":"2.5"}`},
 	"BigTime":    {`{"n":"0x1f","t":"1700000000000000000","m":"0x2"}`},
-	"Maps":    {`{"a":{"1":2,"200":65535},"b":{"k":{"x":1,"y":2}},"c":{"7":"0x0102"}}`, `{"a":{},"b":{},"c":{}}`},
-	"MapU8":   {`{"1":2,"3":4}`},
-	"Counted": {`{"l":[1,2,3],"m":{"1":5},"p":7,"s":[9]}`},
+	"Maps":       {`{"a":{"1":2,"200":65535},"b":{"k":{"x":1,"y":2}},"c":{"7":"0x0102"}}`, `{"a":{},"b":{},"c":{}}`},
+	"MapU8":      {`{"1":2,"3":4}`},
+	"Counted":    {`{"l":[1,2,3],"m":{"1":5},"p":7,"s":[9]}`},
 }
 
 var (
